@@ -96,7 +96,7 @@ def run_case(case):
     ground_mask = np.abs(lam - lam.min()) < 1e-12 * max(1.0, abs(lam.min()))
     orth = q[:, ~ground_mask] @ (1.0 + r.rand((~ground_mask).sum())) if (~ground_mask).any() else None
     vecs = [("ground", q[:, 0].copy()), ("generic", gen), ("generic*1e-3", gen * 1e-3), ("generic*1e3", gen * 1e3), ("zero", np.zeros(d, dtype=complex))]
-    if d > 1:
+    if not d <= 1:  # NaN fails
         vecs.append(("excited", q[:, -1].copy()))
     if orth is not None:
         vecs.append(("orth_ground", orth))
@@ -118,10 +118,10 @@ def run_case(case):
         psi = res.ground_state.numpy()
         E = float(res.ground_energy)
         nrm = np.linalg.norm(psi)
-        if abs(nrm - 1) > 1e-10:
+        if not abs(nrm - 1) <= 1e-10:  # NaN fails
             return result(False, sig="not-unit", msg=f"returned vector has norm {nrm!r}; vector {vname}, {case}", outcome="viol")
         rq = np.vdot(psi, H @ psi).real / nrm**2
-        if abs(rq - E) > 1e-10 * nH:
+        if not abs(rq - E) <= 1e-10 * nH:  # NaN fails
             return result(False, sig="energy-not-rayleigh", msg=f"energy {E!r} != Rayleigh quotient {rq!r}; vector {vname}, {case}", outcome="viol")
         if E < e0 - 1e-10 * nH:
             return result(False, sig="below-ground", msg=f"energy {E!r} below lowest eigenvalue {e0!r}; vector {vname}, {case}", outcome="viol")
